@@ -459,8 +459,7 @@ RlExitLock(c) ==
 
 RlExitRst(c) ==
   /\ rpc[c] = "xrst"
-  \* (the reset is written with a deadline of 30 s of its own; the model lets it wait for room instead: a transport
-  \* that stays full for that long shows up as a deadlock here)
+  \* (the reset is written with a deadline of 30 s of its own: it waits for room; RlExitRstTimeout below gives it up)
   /\ (~gotTrailer[c] /\ sctx[c]) => Room(c2s)
   /\ c2s' = IF ~gotTrailer[c] /\ sctx[c] THEN Append(c2s, Env(idOf[c], "rst")) ELSE c2s
   /\ rpc' = [rpc EXCEPT ![c] = "xunreg"]
@@ -808,7 +807,7 @@ Finished == AllCallersDone /\ AllHandlersDone /\ wrpc \in {"take", "end"} /\ \A 
 \* the only step of a finished system; any other state without a successor is a deadlock
 Terminated == Finished /\ UNCHANGED vars
 
-Next ==
+NextButTimeouts ==
   \/ \E c \in Unaries : UCheck(c) \/ URegister(c) \/ UWrite(c) \/ UAwait(c) \/ UUnregister(c) \/ UnaryCallerCancel(c)
   \/ MuxRead \/ MuxLookup \/ MuxHandoff \/ MuxFail
   \/ \E c \in Streams : \/ SCheck(c) \/ SRegister(c) \/ SOpen(c) \/ SChoose(c) \/ SOpCheck(c) \/ SSendWrite(c) \/ SSendRefused(c) \/ STeardown1(c) \/ STeardown2(c)
@@ -821,7 +820,20 @@ Next ==
   \/ \E i \in Ids : HChoose(i) \/ HCtxWait(i) \/ HRecv(i) \/ HSend(i) \/ HTrailer(i) \/ HCancel(i) \/ HUnregister(i)
   \/ ClientReadFail \/ Stop \/ PeerClosesAfterServe \/ ServerSeesClose
   \/ AdvSendsToServer \/ AdvSendsToClient \/ AdvCloses
-  \/ Terminated
+
+\* The 30 s deadline of the reset write.  Time is not modelled: the timer is taken to fire only when nothing else in
+\* the system can move any more (the usual reading of a timeout in an untimed model: 30 s are long against every
+\* other step) - then the reset is given up and the teardown goes on.
+RlExitRstTimeout(c) ==
+  /\ rpc[c] = "xrst" /\ ~gotTrailer[c] /\ sctx[c] /\ ~Room(c2s)
+  /\ ~ENABLED NextButTimeouts
+  /\ rpc' = [rpc EXCEPT ![c] = "xunreg"]
+  /\ UNCHANGED <<c2s, s2c, nextId, idOf, muxLock, reg, respCh, respDone, rErr, mpc, mcur, cReadFailed, upc, ures, ucan,
+                 spc, sop, nsent, closed, cancelled, sres, rcur, sctx, rdone, rterm, rChClosed, prot,
+                 gotTrailer, srpc, srcur, srvLock, sreg, sch, hctx, hdoneSig, connCtx, wpc, wcur, wrpc, wrcur,
+                 hpc, hrecv, hsentN, hres, hsawEOF, waitFor, sReadFailed, stopped, serveRet, advN>>
+
+Next == NextButTimeouts \/ (\E c \in Streams : RlExitRstTimeout(c)) \/ Terminated
 
 Spec == Init /\ [][Next]_vars
 FairSpec == Spec /\ WF_vars(Next)
